@@ -391,7 +391,23 @@ impl Builder {
 pub fn build(spec: &Spec, order_seed: u64, permute: bool) -> Result<Built, String> {
     let ctl = Ctl::new(order_seed, permute);
     let mut b = Builder { ctl: ctl.clone(), nodes: vec![], base: None };
-    let root = match b.build(spec, None, None) {
+    // building the stack and its initial contents goes through the public API too: a panic here
+    // is a panic of the library on a legitimate call
+    let built = std::panic::catch_unwind(std::panic::AssertUnwindSafe(|| b.build(spec, None, None)));
+    let built = match built {
+        Ok(r) => r,
+        Err(p) => {
+            let msg = if let Some(s) = p.downcast_ref::<&str>() {
+                s.to_string()
+            } else if let Some(s) = p.downcast_ref::<String>() {
+                s.clone()
+            } else {
+                "panic".to_string()
+            };
+            Err(format!("LIBRARY-PANIC while creating the initial contents through the public API: {}", msg))
+        }
+    };
+    let root = match built {
         Ok(r) => r,
         Err(e) => {
             if let Some(base) = &b.base {
